@@ -59,3 +59,14 @@ package frugal
 //@   panics when true
 //@   ensures c04_top: n == SZS(sdFor(rvOf(val)), M, $encp)
 //@   ensures c16_value: forall a Int :: {M[a]} a < old($brk) ==> M[a] == old(M[a])
+
+// DecodeObject: the decoder's entry point (thin wrapper around internal/reflect.Decode)
+//@ func DecodeObject(buf []byte, val any) (n int, err error)
+//@   requires c07_caches: $(cachereq)
+//@   ensures c07_caches: $(cachereq)
+//@   requires len(buf) <= MAXIN && buf.ptr + len(buf) <= $brk && (len(buf) > 0 ==> buf.ptr >= 65536)
+//@   requires c16_disjoint: buf.ptr + len(buf) <= anyPtr(val) || anyPtr(val) + anySize(val) <= buf.ptr
+//@   modifies M, $brk, $initp, $maps, $complete, $inprog, "H.tType.Sd", $sds
+//@   ensures c16_input: forall a Int :: {M[a]} buf.ptr <= a && a < buf.ptr + len(buf) ==> M[a] == old(M[a])
+//@   ensures c13_arg: rvKind(rvOf(val)) != reflect.Ptr || rvIsNil(rvOf(val)) || rtKind(rtElem(rvType(rvOf(val)))) != reflect.Struct ==> err != nil && n == 0
+//@   ensures 0 <= n && n <= len(buf)
